@@ -193,12 +193,13 @@ def _mk(e, lo, hi):
 
 
 class SymInt:
-    __slots__ = ("e", "lo", "hi")
+    __slots__ = ("e", "lo", "hi", "tag")
 
     def __init__(self, e, lo, hi):
         self.e = e
         self.lo = lo
         self.hi = hi
+        self.tag = None    # optional provenance note set by shims (e.g. hex digit of a nibble); never semantics
 
     # -- arithmetic -------------------------------------------------------
     def __add__(s, o):
@@ -498,6 +499,11 @@ class SymInt:
     __int__ = __index__
 
     def __hash__(s):
+        if ENG.hash_collapse:
+            # opt-in (harness sets ENG.hash_collapse): every symbolic integer hashes alike and dict/set
+            # lookups fall through to ==, which forks.  Sound only for containers whose integer keys are
+            # ALL symbolic (a concrete int key hashes differently and would never be compared).
+            return 0x5CA1AB1E
         return hash(ENG.choose(s))
 
     def __float__(s):
@@ -505,7 +511,9 @@ class SymInt:
 
     def __format__(s, spec):
         ENG.stats["formatted"] += 1
-        return "<sym>"
+        from . import shims
+        r = shims.format_symint(s, spec)   # None unless a harness opted in (seq.placeholders_begin)
+        return "<sym>" if r is None else r
 
     def __repr__(s):
         if ENG is not None:
@@ -588,6 +596,7 @@ class Engine:
         self.max_paths = max_paths
         self.max_decisions = max_decisions
         self.choose_limit = choose_limit
+        self.hash_collapse = False
         self.solver = z3.Solver()
         self.solver.set("timeout", timeout_ms)
         self.stats = dict(paths=0, decisions=0, feas_queries=0, feas_unknown=0, solver_s=0.0,
